@@ -50,6 +50,7 @@ MONITORED = [
     'input-form equivalence on the real code: the same matrix / precipitate stiffness as 6x6, 3x3x3x3, nested lists, property assignment, elastic constants, three random moduli pairs (precipitate different from the matrix, with and without rotations, either side first) and the same eigenstrain / applied stress as scalar, 3-vector, matrix: stored tensor = the supplied tensor (expanded independently), same parameters, same energies',
     'orientation of the particle axes on the real code: _beta(a,b,c,phi,theta) = sqrt((a n_x)^2+(b n_y)^2+(c n_z)^2) with n = the code\'s own _n, and unchanged under joint relabelling of (semi-axes, direction); compute / strainEnergyEllipsoid of tri-axial ellipsoids (random choice of the longest axis) and of spheroids about x, y, z, diagonal (e11 != e22 != e33) and full symmetric eigenstrain, isotropic / cubic / misaligned cubic matrix with equal or different precipitate stiffness, are unchanged when the coordinate axes are relabelled (24 proper cube operations + the three transpositions acting on semi-axes, eigenstrain and, for the misaligned crystal, the stiffness) on the three Lebedev tables, the octant and the whole-sphere mid-point grid of setIntegrationIntervals and an injected Gauss-Legendre rule: 1e-9 where the relabelling maps the node table onto itself (measured on the table: the shipped Lebedev tables are only invariant under the rotations about z), else the quadrature accuracy of the scheme (Lebedev 0.3 / 0.2 / 0.15 and reported under the finding lebedev-inexact-order* while the tables are inexact; octant grid 24x24 3e-2; whole-sphere grid 96x48 5e-2; product rule 2e-5: the unchanged code stays below a third of the last three over 60 seeds); Eshelby tensor of prolate / oblate spheroids about each of x, y, z (Mura closed forms) and of tri-axial ellipsoids (elliptic integrals by adaptive quadrature) in an isotropic matrix, all 81 components, absolute tolerance per scheme 0.12 / 0.08 / 0.05 (Lebedev tables, measured worst 0.06 / 0.03 / 0.02), 1.5e-2 octant grid, 2e-2 whole-sphere grid, 1e-6 product rule (5e-5 tri-axial)',
     'array calls on the real code: compute on an (n x 3) array, n = 2..8, whose rows are one to three shapes (sphere, spheroid about any axis, tri-axial) at the sizes 1, 0.5, 2, 3, 10 (x7) - a run of one shape, interleaved shapes, repeated rows - for constant / sphere / cube / ellipsoid (by name ellipsoid, plate, needle) descriptions, matrix and precipitate stiffness as 6x6 or 3x3x3x3, eigenstrain scalar / vector / matrix, grid and Lebedev quadrature: row i equals compute(row i), description.computeStrainEnergy(row i) and compute(list(row i)) to 1e-12; rows of the same shape have energies in the ratio of the cubes of their sizes (1e-9); compute(rows[perm]) = compute(rows)[perm] for a random permutation and the reversal; the five energy variants of the ellipsoidal description scale with the cube across the rows; eqAR_byGR / eqAR_bySearch on an array of radii (with a repeated radius) = the calls on the single radii, permuted radii -> permuted answers (the aspect-ratio table first grown until stable)',
+    'precipitate rotation vs matrix rotation on the real code (keys precrot:*): isotropic matrix + explicitly given cubic precipitate stiffness (Zener ratio 0.4-4; as constants, 6x6 or 3x3x3x3; rotations supplied before or after the stiffness), sphere / needle / plate / tri-axial radii, diagonal or full eigenstrain, Lebedev low / mid / high: (a) compute with setRotationMatrix(R) = compute without rotation; (b) setRotationPrecipitate(R2) with the unrotated tensor = no rotation with the tensor rotated by R2 (own einsum, and by rotateRank4Tensor) handed over; (c) both rotations set = the pre-rotated tensor, whatever R; relative 1e-10 (same nodes on both sides; measured worst 3.1e-14 over 7200 cases); no Lean theorem states that rotating an isotropic stiffness is the identity, oracle only',
     'object independence on the real code: several live StrainEnergy objects configured in interleaved order, each read after all were configured, equal a fresh single object given the same calls and hold the eigenstrain supplied to them; eps^2 / s^3 scaling and the closed form evaluated across objects',
 ]
 ASSUMPTIONS = [
@@ -2567,6 +2568,113 @@ def part_rows(ctx, res, EF, r, n=None):
     return lines, checks
 
 
+# ------------------------------------------------------------------ precipitate rotation vs matrix rotation (real code only)
+# Direct oracle for "the energy does not depend on the orientation of the matrix axes" with an ISOTROPIC matrix and an
+# explicitly given anisotropic (cubic) precipitate stiffness.  Rotating an isotropic tensor changes nothing, so
+#   (a) E(setRotationMatrix(R), C_prec)                      = E(no rotation, C_prec)
+#   (b) E(setRotationPrecipitate(R2), C_prec)                 = E(no rotation, rot4(R2, C_prec) handed over as a tensor)
+#   (c) E(setRotationMatrix(R), setRotationPrecipitate(R2))   = E(no rotation, rot4(R2, C_prec))   for every R
+# The reference tensor is rotated with this file's own einsum (rot4_own), not with kawin's rotateRank4Tensor; all energies of
+# one case run on the same quadrature nodes, so the comparison is at round-off level whatever the table's accuracy.
+# Lean: Props/C16.lean has rotate4_formula / rotate4_roundtrip / rotation_after_stiffness (update rotates the matrix tensor with
+# `rotation`, the precipitate tensor with `rotationPrec`, independent of call order) but NO theorem "rotating an isotropic
+# stiffness is the identity", so these clauses are monitored by the oracle only.
+PRECROT_TOL = 1e-10        # measured on the unchanged tree: worst relative difference 3.1e-14 over 30 seeds x 240 cases (the defect it is meant for: 1e-5 .. 0.4)
+PRECROT_SHAPES = ['sphere', 'needle', 'plate', 'general']
+PRECROT_FORMS = ['constants', '6x6', '3x3x3x3']
+PRECROT_KEYS = {'a': 'precrot:isotropic-matrix-rotation-changes-energy',
+                'b': 'precrot:precipitate-rotation-vs-prerotated-tensor',
+                'c': 'precrot:precipitate-rotation-under-matrix-rotation'}
+
+
+def precrot_object(EF, cfg, rot, rotP, prec4=None):
+    """fresh ellipsoidal StrainEnergy: isotropic matrix cfg['cM'], precipitate either the cubic constants cfg['cP'] in the recorded
+    input form or the given 4th-rank tensor; rotations before or after the stiffness as recorded"""
+    se = EF.StrainEnergy('ellipsoid')
+    if cfg['order'] != 'high':
+        se.description.setLebedevIntegration(cfg['order'])
+
+    def rots():
+        if rot is not None:
+            se.setRotationMatrix(np.array(rot, dtype=float))
+        if rotP is not None:
+            se.setRotationPrecipitate(np.array(rotP, dtype=float))
+
+    def stiff():
+        se.setElasticConstants(*cfg['cM'])
+        if prec4 is not None:
+            se.setElasticTensorPrecipitate(np.array(prec4, dtype=float))
+        elif cfg['form'] == 'constants':
+            se.setElasticConsantsPrecipitate(*cfg['cP'])
+        elif cfg['form'] == '6x6':
+            se.setElasticTensorPrecipitate(EF.elasticConstantToC(*cfg['cP']))
+        else:
+            se.setElasticTensorPrecipitate(own_2to4(np.array(EF.elasticConstantToC(*cfg['cP']), dtype=float)))
+    for f in ((rots, stiff) if cfg['rot_first'] else (stiff, rots)):
+        f()
+    se.setEigenstrain(np.array(cfg['eig'], dtype=float))
+    return se
+
+
+def precrot_failures(EF, cfg, stats=None):
+    """[{key, what, observed, required}] for one recorded configuration (JSON-able cfg: cM, cP, eig, r, R, R2, order, form, rot_first)"""
+    rad = np.array(cfg['r'], dtype=float); R, R2 = np.array(cfg['R'], dtype=float), np.array(cfg['R2'], dtype=float)
+    C4 = own_2to4(np.array(EF.elasticConstantToC(*cfg['cP']), dtype=float))
+    en = lambda se: float(se.compute(rad))
+    e_plain = en(precrot_object(EF, cfg, None, None))
+    e_pre = en(precrot_object(EF, cfg, None, None, prec4=rot4_own(R2, C4)))
+    e_pre_k = en(precrot_object(EF, cfg, None, None, prec4=EF.rotateRank4Tensor(R2, C4)))
+    obs = {'a': (en(precrot_object(EF, cfg, R, None)), e_plain,
+                 'isotropic matrix, cubic precipitate: the energy changes when only the matrix axes are rotated (setRotationMatrix)'),
+           'b': (en(precrot_object(EF, cfg, None, R2)), e_pre,
+                 'setRotationPrecipitate(R2) with the unrotated cubic tensor != handing over the tensor already rotated by R2'),
+           'c': (en(precrot_object(EF, cfg, R, R2)), e_pre,
+                 'isotropic matrix rotated by R: setRotationPrecipitate(R2) != pre-rotated precipitate tensor (precipitate rotation ignored or mixed with the matrix rotation)')}
+    fails = []
+    if not close(e_pre_k, e_pre, PRECROT_TOL):
+        fails.append(dict(key='precrot:rotateRank4Tensor-vs-einsum', what='energy with the precipitate tensor rotated by rotateRank4Tensor != rotated by an independent einsum',
+                          observed=e_pre_k, required=e_pre))
+    for c, (got, want, what) in obs.items():
+        if stats is not None and want:
+            stats[c] = max(stats.get(c, 0.0), abs(got - want) / max(abs(got), abs(want)))
+        if not (math.isfinite(got) and math.isfinite(want)) or not close(got, want, PRECROT_TOL):
+            fails.append(dict(key=PRECROT_KEYS[c], what=what + ' (%s, quadrature %s, precipitate given as %s, rotation %s the stiffness)'
+                              % (cfg['shape'], cfg['order'], cfg['form'], 'before' if cfg['rot_first'] else 'after'), observed=got, required=want))
+    if stats is not None and e_plain:
+        # how much the orientation of the precipitate matters in this case (non-vacuity of b/c)
+        stats['effect'] = abs(e_pre - e_plain) / max(abs(e_pre), abs(e_plain))
+    return fails
+
+
+def part_precrot(ctx, res, EF, r, n=None):
+    worst = res.extra.setdefault('precrot_worst_rel', {})
+    def _case_precrot(k):
+        cm = rand_iso(r); cp = rand_cubic(r)
+        shape = PRECROT_SHAPES[k % 4]
+        a = 10 ** r.uniform(-9.5, -7.5); ar = r.uniform(1.5, 6)
+        rad = {'sphere': [a, a, a], 'needle': [a, a, a * ar], 'plate': [a, a, a / ar], 'general': list(a * r.uniform(0.4, 2.5, 3))}[shape]
+        cfg = dict(cM=[float(x) for x in cm[:3]], cP=[float(x) for x in cp], zener=2 * cp[2] / (cp[0] - cp[1]),
+                   eig=rand_eig(r, ['diag', 'full'][(k // 4) % 2]).tolist(), r=[float(x) for x in rad], shape=shape,
+                   R=rand_rotation(r).tolist(), R2=rand_rotation(r).tolist(),
+                   order=['low', 'low', 'low', 'mid', 'low', 'high'][(k // 4) % 6], form=PRECROT_FORMS[(k // 2) % 3], rot_first=bool((k // 3) % 2 == 0))
+        _case_precrot.info = cfg
+        res.case(('precrot', shape, cfg['order'], cfg['form'], cfg['rot_first'], k)); res.count('precrot:' + shape)
+        if k < 1:
+            res.sample(cfg)
+        st = {}
+        with np.errstate(all='ignore'):
+            fails = precrot_failures(EF, cfg, st)
+        for c in 'abc':
+            worst[c] = max(worst.get(c, 0.0), st.get(c, 0.0))
+        if st.get('effect', 0.0) > 1e-6:
+            res.count('precrot:orientation-of-precipitate-matters')
+        for f in fails:
+            res.violate(f['key'], f['what'], dict(precrot_replay=cfg), f['observed'], f['required'])
+    for k in range(n or ctx.n(48, 480)):
+        attempt(res, 'precrot', k, _case_precrot)
+    return [], []
+
+
 # ------------------------------------------------------------------ entry points
 def corr(ctx, oracle_only=False, scale=1):
     res = Result()
@@ -2575,7 +2683,7 @@ def corr(ctx, oracle_only=False, scale=1):
                 'eigenstrain kind (dilatation, diagonal, full symmetric) x shape (sphere, prolate, oblate, triaxial) x quadrature order x rotation; setter sequences: random ops '
                 '(18 kinds) on all four initial shapes; order pairs: the same items supplied in two random orders; histories of one object: 3..22 (thorough 60) calls, 40 % observations '
                 '(compute on a pool of 3-4 aspect ratios x 2 sizes + random sizes, several radii at once, five energy variants, eqAR searches, a quarter of the histories repeat the same search), 60 % setters '
-                '(the 18 kinds, property assignment, setShape by name/instance, quadrature, inverse routine, aspect-ratio table settings); input forms: 6-10 forms per tensor x side x tensor kind (cubic, isotropic, rotated cubic); orientation: matrix kind (isotropic, cubic, misaligned cubic) x shape (tri-axial with a random longest axis and axis ratios 1.25-1.8 between neighbours, spheroid about x / y / z with aspect ratio 1.5-4 either way) x eigenstrain (diagonal with three different entries, full symmetric) x six quadrature schemes x relabellings; array calls: description (8 names cycling) x tensor rank x row layout (run / interleaved / repeated / mixed) x n = 2..8 x two permutations. non-trivial = non-degenerate input (sequence of >= 3 ops); distinct = (kind tuple, index)')
+                '(the 18 kinds, property assignment, setShape by name/instance, quadrature, inverse routine, aspect-ratio table settings); input forms: 6-10 forms per tensor x side x tensor kind (cubic, isotropic, rotated cubic); orientation: matrix kind (isotropic, cubic, misaligned cubic) x shape (tri-axial with a random longest axis and axis ratios 1.25-1.8 between neighbours, spheroid about x / y / z with aspect ratio 1.5-4 either way) x eigenstrain (diagonal with three different entries, full symmetric) x six quadrature schemes x relabellings; array calls: description (8 names cycling) x tensor rank x row layout (run / interleaved / repeated / mixed) x n = 2..8 x two permutations; precipitate rotation: shape (sphere, needle, plate, tri-axial) x eigenstrain (diagonal, full) x quadrature order x input form of the precipitate stiffness (constants, 6x6, 3x3x3x3) x rotations before / after the stiffness, random isotropic matrix, cubic precipitate, two random rotations. non-trivial = non-degenerate input (sequence of >= 3 ops); distinct = (kind tuple, index)')
     res.monitored = list(MONITORED)
     EF, LN = load()
     fast_points(EF, LN)
@@ -2595,6 +2703,7 @@ def corr(ctx, oracle_only=False, scale=1):
     lines += l; checks += c
     l, c = part_rows(ctx, res, EF, r)                            # (after it, for the same reason)
     lines += l; checks += c
+    part_precrot(ctx, res, EF, r)                                # (oracle only; after them, for the same reason)
     if ctx.driver_ok and not oracle_only:
         out = vlib.run_driver(PROP, lines)
         for line, ans, (what, case, fn) in zip(lines, out, checks):
@@ -2629,6 +2738,7 @@ def search(ctx, broken):
     part_objects(big, res, EF, r)
     part_orientation(big, res, EF, r, bad)
     part_rows(big, res, EF, r)
+    part_precrot(big, res, EF, r)
     return res
 
 
@@ -2656,6 +2766,16 @@ def replay(ctx, entry):
         else:
             j = case['eqar_replay']
             fails = eqar_failures(EF, rows_object(EF, rows_cfg_from_json(j['cfg'])), j['which'], np.array(j['R'], dtype=float), j['gamma'], j['sf'], np.array(j['perm'], dtype=int)) or []
+        hits = [f for f in fails if f['key'] == key]
+        for f in hits[:3]:
+            print('  ', f['key'], f['what'], f['observed'], f['required'])
+        return not hits
+    if isinstance(case, dict) and 'precrot_replay' in case:
+        # isotropic matrix + rotated cubic precipitate: the recorded configuration again
+        EF, LN = load()
+        fast_points(EF, LN)
+        with np.errstate(all='ignore'):
+            fails = precrot_failures(EF, case['precrot_replay'])
         hits = [f for f in fails if f['key'] == key]
         for f in hits[:3]:
             print('  ', f['key'], f['what'], f['observed'], f['required'])
